@@ -111,9 +111,63 @@ fn drive<D: DecisionDiagram<State = St> + Default + Drawable>(m: &Model, ddname:
     }
 }
 
+/// spec -> impl: compile the inputs enumerated by TLC on DD.tla with the real compilers and report the outcomes in the model's shape
+fn replay_inputs(file: &str, outp: &str) {
+    let inputs: Vec<serde_json::Value> = serde_json::from_str(&std::fs::read_to_string(file).unwrap()).unwrap();
+    let mut outs = vec![];
+    let cache = EmptyCache::new();
+    let dom = EmptyDominanceChecker::default();
+    let cutoff = NoCutoff;
+    let mut lel: Mdd<St, { LAST_EXACT_LAYER }> = Mdd::new();
+    let mut fc: Mdd<St, { FRONTIER }> = Mdd::new();
+    for i in inputs.iter() {
+        let m = Model::from_json(&i["inst"]);
+        let r = &i["root"];
+        let depth = r["depth"].as_u64().unwrap() as usize;
+        let xs: Vec<u64> = r["x"].as_array().unwrap().iter().map(|v| v.as_u64().unwrap()).collect();
+        let x = if m.family == Family::Knapsack { xs[0] as u32 } else { xs.iter().fold(0u32, |a, e| a | 1 << (e - 1)) };
+        let root = SubProblem {
+            state: Arc::new(m.st(depth, x)),
+            value: r["value"].as_i64().unwrap() as isize,
+            path: r["path"].as_array().unwrap().iter().map(|d| Decision { variable: Variable(d[0].as_u64().unwrap() as usize), value: d[1].as_i64().unwrap() as isize }).collect(),
+            ub: isize::MAX,
+            depth,
+        };
+        let ty = match i["type"].as_str().unwrap() {
+            "exact" => CompilationType::Exact,
+            "restricted" => CompilationType::Restricted,
+            _ => CompilationType::Relaxed,
+        };
+        let lb = i["lb"].as_i64().unwrap();
+        let lb = if lb <= NEG_INF { isize::MIN } else { lb as isize };
+        let input = CompilationInput { comp_type: ty, max_width: i["width"].as_u64().unwrap() as usize, problem: &m, relaxation: &m, ranking: &m, cutoff: &cutoff, cache: &cache, dominance: &dom, residual: &root, best_lb: lb };
+        let mut cs = vec![];
+        let (exact, bv, bev) = if i["cut"] == "lel" {
+            lel.compile(&input).unwrap();
+            if ty == CompilationType::Relaxed && !lel.is_exact() {
+                lel.drain_cutset(|c| cs.push(c));
+            }
+            (lel.is_exact(), lel.best_value(), lel.best_exact_value())
+        } else {
+            fc.compile(&input).unwrap();
+            if ty == CompilationType::Relaxed && !fc.is_exact() {
+                fc.drain_cutset(|c| cs.push(c));
+            }
+            (fc.is_exact(), fc.best_value(), fc.best_exact_value())
+        };
+        let mut csj: Vec<serde_json::Value> = cs.iter().map(|c| json!({"x": m.xjson(c.state.x), "depth": c.depth, "value": num(c.value), "ub": num(c.ub)})).collect();
+        csj.sort_by_key(|v| v.to_string());
+        outs.push(json!({"exact": exact, "bv": onum(bv), "bev": onum(bev), "cs": csj}));
+    }
+    std::fs::write(outp, serde_json::to_string(&outs).unwrap()).unwrap();
+}
+
 fn main() {
     let args: Vec<String> = std::env::args().collect();
     let outp = arg(&args, "--out").expect("--out");
+    if let Some(f) = arg(&args, "--inputs") {
+        return replay_inputs(&f, &outp);
+    }
     let mut out = BufWriter::new(std::fs::File::create(outp).unwrap());
     let seed = argn(&args, "--seed", 1);
     let insts = argn(&args, "--instances", 10) as usize;
